@@ -98,12 +98,15 @@ Judge(o) ==
        \* read-only means read-only; only declared-writable mounts accept writes
      \cup UNION { LET W  == Writable(exp, t.p, env)
                       k  == KindAt(cfg, exp, t.p, env)
+                      IsMaskPath == t.p \in ToSet(o.case.maskchk)
                   IN (IF t.k # ExpKind(exp, t.p, env) THEN { F("drift", "object-kind", t.k, t.p) } ELSE {})
                 \cup (IF t.k # "A" /\ ~W /\ AnyOK(t)
                       THEN { F("viol", "ro-accepts-write", k, t.p) } ELSE {})
-                \cup (IF t.k # "A" /\ W /\ ~PrimOK(t) THEN { F("drift", "rw-rejects-write", k, t.p) } ELSE {})
+                \cup (IF t.k # "A" /\ W /\ ~PrimOK(t) /\ ~IsMaskPath THEN { F("drift", "rw-rejects-write", k, t.p) } ELSE {})
                   \* kernel truth: statvfs, mountinfo and behaviour must tell the same story
-                \cup (IF t.k # "A" /\ ((t.ro = 1 /\ AnyOK(t)) \/ (t.ro = 0 /\ ~PrimOK(t)))
+                  \* (what sits at a masked path when the mask is missing may refuse writes for its own reasons:
+                  \*  procfs entries, file modes; "writable but refuses" is only meaningful for the table's own objects)
+                \cup (IF t.k # "A" /\ ((t.ro = 1 /\ AnyOK(t)) \/ (t.ro = 0 /\ ~PrimOK(t) /\ ~IsMaskPath))
                       THEN { F("model", "statvfs-vs-behaviour", k, t.p) } ELSE {})
                 \cup (IF t.k # "A" /\ Len(o.mi) > 0 /\ (t.ro = 1) # MiRo(o.mi, t.p)
                       THEN { F("model", "statvfs-vs-mountinfo", k, t.p) } ELSE {})
@@ -115,6 +118,12 @@ Judge(o) ==
                          /\ ~(m.s = "emptydir" /\ MaskState(exp, m.p, env) = "exposed")   \* naturally empty directory
                       THEN { F("drift", "mask-state", m.s, m.p) } ELSE {})
                 : m \in ToSet(o.masks) }
+       \* ... also to the next program in the same container, after the first one tried to write there
+     \cup UNION { (IF ~MaskedOK(m.s) THEN { F("viol", "mask-exposed-to-next-program", m.s, m.p) } ELSE {})
+                : m \in ToSet(o.masks2) }
+     \cup (IF o.second /\ [i \in DOMAIN o.masks2 |-> <<o.masks2[i].p, o.masks2[i].s>>]
+                          # [i \in DOMAIN o.masks |-> <<o.masks[i].p, o.masks[i].s>>]
+           THEN { F("drift", "mask-state-changed", "", <<>>) } ELSE {})
        \* implementation layer: the kernel's mount table is the model's
      \cup (IF ~SameMi(o.mi, exp) THEN { F("drift", "mountinfo", "", <<>>) } ELSE {})
      \cup (IF o.hasmiin /\ MiKey(o.miin) # MiKey(o.mi) THEN { F("model", "mountinfo-inside-vs-outside", "", <<>>) } ELSE {})
